@@ -77,6 +77,7 @@ ALSO = {
  "C07": " Also decided: typed json.MarshalWrite / json.MarshalEncode deliver exactly json.Marshal's bytes for 13 value shapes (empty containers at top level, omitempty retractions around the pooled buffer's flush threshold) on both writer kinds, and only a prefix after a failed first write.",
  "C08": " Also decided: a duplicated (possibly escaped) name one level down is rejected by default and accepted with AllowDuplicateNames for eight kinds of target at that position (struct, map, any, raw value, skipped unknown member, embedded raw and map fallbacks, pointer to map); map targets pre-populated or not.",
  "C09": " Also decided: pointer-receiver methods at seven addressable/non-addressable positions (direct and promoted fields); three further recorded differences with exact regions.",
+ "C10": " Also decided: the ECMA-262 layout of AppendFloat (exponent form exactly when 0<|x|<1e-6 or |x|>=1e21, signed exponent without leading zeros, -0 kept) for every finite float64 and float32, thresholds in the SMT floating-point theory, strconv's digit generation replaced by a shape stub.",
  "C11": " Also decided: eleven paths by which a string reaches Marshal's output (value, map key, member names, raw value field, MarshalJSON, MarshalText, AppendText, MarshalJSONTo token/raw, inside any, text-marshaler key) under EscapeForHTML/EscapeForJS/PreserveRawStrings: no raw < > & or U+2028/9, same text.",
  "C12": " Also decided: escaped duplicate names under PreserveRawStrings.",
  "C14": " Also decided: null zeroes each of 13 destination kinds and keeps the other fields; arrays shorter than the Go array (JSON array or base64) are refused by default and zero the tail under UnmarshalArrayFromAnyLength.",
